@@ -20,7 +20,8 @@ META = dict(E1_META, **{
         'Oracle 1: the pool snapshot at the end of the stopped incarnation '
         'equals the snapshot right after the restarted start-up on status '
         '(preparing -> waiting), flows, held, submit number, completed '
-        'outputs, prerequisite and xtrigger satisfaction, plus hold point, '
+        'outputs, prerequisite satisfaction (with the recorded way: '
+        'naturally / forced) and xtrigger satisfaction, plus hold point, '
         'held-future set, stop point, stop task, broadcasts, flow counter. '
         'Oracle 2: the jobs launched over all incarnations and their final '
         'states/outputs (job-world ledger) equal those of the uninterrupted '
@@ -32,7 +33,9 @@ META = dict(E1_META, **{
     'budget': {'quick': 150, 'thorough': 1500},
 })
 RULE = ('case = generated workflow + mixed plan + command prelude (holds, '
-        'hold point, stop point/task, broadcasts, new flows) x stop '
+        'holds of future tasks released all at once, hold point, stop '
+        'point/task, broadcasts, reload, manual `cylc set` of outputs and '
+        'of single prerequisites) x stop '
         'iteration x stop mode x number of restarts; distinct by (case, '
         'stop iteration, mode); non-trivial when the stopped incarnation '
         'had a non-empty pool at the stop')
